@@ -17,7 +17,7 @@
     pattern definitions, procedures); erg is tied program by program (checks/c02.py). *)
 From Coq Require Import ZArith List Bool.
 From ErgV Require Import CoreErg.Syntax CoreErg.Sem Typing.Types Typing.Check Typing.Eval Typing.Spec Typing.ProofsTypes
-     Typing.ProofsOps Typing.ProofsSound.
+     Typing.ProofsOps Typing.ProofsBasic Typing.ProofsSound.
 Import ListNotations.
 Open Scope Z_scope.
 
